@@ -70,10 +70,6 @@ def check_copies(ctx, case, x):
             a, b = pw.get(w, ([], [])), pw.get(v, ([], []))
             if a != b:
                 key = "double-clone" if known else "copies-differ"
-                if not known and (rw or any(net_restr(case, u) for u in workers[:max(workers.index(w), workers.index(v))])):
-                    key = "missing-producer:vm-variant-excluded-by-first-worker"
-                elif not known and net_restr(case, workers[0]):
-                    key = "missing-producer:vm-variant-excluded-by-first-worker"
                 ctx.violate(key, f"the copies of workers {w} and {v} (same restrictions) differ after renaming: "
                             f"only {w}: {sorted(set(a[0]) - set(b[0]))[:3]} {sorted(set(a[1]) - set(b[1]))[:3]}; "
                             f"only {v}: {sorted(set(b[0]) - set(a[0]))[:3]} {sorted(set(b[1]) - set(a[1]))[:3]}", dict(case))
@@ -95,9 +91,7 @@ def check_copies(ctx, case, x):
             # clone labels may legitimately differ when a restriction leaves one producer only; compare the tests
             strip = lambda l: sorted({(s.split("|")[0].split(".")[0:3].__str__(), s.split("|")[1]) for s in l})
             if strip(got) != strip(exp) and not known:
-                first_restricted = bool(net_restr(case, workers[0]))
-                ctx.violate("missing-producer:vm-variant-excluded-by-first-worker" if first_restricted and w != workers[0]
-                            else "restricted-copy-differs",
+                ctx.violate("restricted-copy-differs",
                             f"the copy of restricted worker {w} is not the copy of {free[0]} minus excluded variants: "
                             f"missing {[e for e in strip(exp) if e not in strip(got)][:3]}, "
                             f"extra {[e for e in strip(got) if e not in strip(exp)][:3]}", dict(case))
@@ -130,7 +124,7 @@ def check_lazy(ctx, case, x_eager, n_orders):
     rn, re_, rooted, dup = gl.canon_real(x_eager)
     known = c06.double_clone(x_eager)
     for k in range(n_orders):
-        order = [(fi, w) for fi in range(14) for w in case["nets"]]
+        order = [(fi, w) for fi in range(gl.MAX_FLATS) for w in case["nets"]]
         rng.shuffle(order)
         partial = k == n_orders - 1 and n_orders > 1
         if partial:
@@ -187,8 +181,6 @@ def check_lazy(ctx, case, x_eager, n_orders):
 
 
 def classify_lazy(case, node_diff, pl, pe):
-    if len(case["nets"]) > 1 and net_restr(case, case["nets"][0]):
-        return "missing-producer:vm-variant-excluded-by-first-worker"
     return "lazy-differs-from-eager"
 
 
@@ -247,13 +239,13 @@ def correspondence(ctx):
             if ctx.remaining(budget) < 0:
                 ctx.notes.append(f"time budget: stopped after {i} of {len(cases)} cases")
                 break
-            run_cases(ctx, [case], n_orders)
+            gl.run_attributed(ctx, case, lambda c, k: run_cases(c, [k], n_orders))
         ship = [c06.shipped_case(2), c06.shipped_case(0)] if not thorough else [c06.shipped_case(i) for i in (0, 2, 4, 6)]
         for sc in ship:
             if ctx.remaining(budget + 60) < 0:
                 ctx.notes.append("time budget: shipped-suite cases cut short")
                 break
-            run_cases(ctx, [sc], 1)
+            gl.run_attributed(ctx, sc, lambda c, k: run_cases(c, [k], 1))
     finally:
         gl.cleanup()
 
